@@ -157,6 +157,12 @@ class Report:
                 cov["reworked_functions"] = {v[0]: {"now": k, "resemblance": v[1]} for k, v in fz.items()}
                 print("  note: renamed AND reworked functions, identified by resemblance only to decide where the rules look: %s" %
                       ", ".join("%s (now %s, %.2f)" % (v[0], k, v[1]) for k, v in sorted(fz.items())))
+        from . import ir as _ir
+        if _ir.PRUNED_NULL_GUARDS:
+            cov["null_guards_on_object_parameters_not_followed"] = sorted("%s:%s" % x for x in _ir.PRUNED_NULL_GUARDS)
+            if not any(a_.startswith("A-nonnull-objects") for a_ in self.assumptions):
+                self.assumptions.append("A-nonnull-objects: branches on `pointer-to-struct parameter == NULL` are not followed (%d in this tree): the properties speak of calls "
+                                        "on valid objects, and the reference code dereferences these parameters unconditionally" % len(_ir.PRUNED_NULL_GUARDS))
         cov.update(self.extra)
         ev = {"property_id": self.prop, "tier": self.tier, "seed": seed, "level": self.level, "coverage": cov,
               "assumptions": self.assumptions, "wall_s": round(wall, 3), "violations": len(self.violations)}
